@@ -5,7 +5,7 @@ TEXTS = {
         "text": "Lean 4 theorem C01_format: for every well-formed UTF-8 input, configuration, parser behaviour and every wrapper behaviour "
                 "satisfying the frame contract, the formatter returns an output and it has the same non-blank characters in the same order as the input up to ASCII "
                 "case (case_changes_confined: a letter changes case only inside a parser-typed keyword, lower-cased as a whole, or inside the name span of a compiler directive; every other rule changes blanks only, exactly); proved through exact models of lexer, content rules, pipeline glue and reconstructor (for every counter "
-                "assignment). C01_format_any_search: with the exact model of the wrapper stage around an arbitrary search (Model/WrapStage, compared with the real stage on every case: wp, wcn, sx) no wrapper contract is assumed at all. C01_format_full: for the closed model of the whole formatter (formatFull: scanner, parser control flow, consolidators, rules, wrapper stage with the search inside, reconstructor; compared byte for byte with make_formatter().format() on every case of the `full` stream) the statement holds with no oracle and no contract whenever the model answers. Model tied to the code by per-stage differential execution; contract clauses evaluated on every case.",
+                "assignment). C01_format_any_search: with the exact model of the wrapper stage around an arbitrary search (Model/WrapStage, compared with the real stage on every case: wp, wcn, sx) no wrapper contract is assumed at all. formatFull_output_valid_utf8: the output of the closed model is well-formed UTF-8 whenever the input is (no rule cuts inside a multi-byte character). C01_format_full: for the closed model of the whole formatter (formatFull: scanner, parser control flow, consolidators, rules, wrapper stage with the search inside, reconstructor; compared byte for byte with make_formatter().format() on every case of the `full` stream) the statement holds with no oracle and no contract whenever the model answers. Model tied to the code by per-stage differential execution; contract clauses evaluated on every case.",
         "design_ref": "DESIGN.md section 5 (C01)",
         "note": "Assumes (checked per case by the driver): WrapFrame (wrapper changes only blanks inside contents and keeps the token "
                 "vector) (the 'no dangling E3 byte in token contents' side condition is now a theorem: lex_total + lex_char_boundaries + valid_nd). "
@@ -124,7 +124,7 @@ TEXTS = {
     },
     "C15": {
         "text": "Lean theorems on the exact cursor model (checked arithmetic): offset_for_token is the true offset, same-offset-in-same-token, "
-                "past-the-end, cursor state never read by format; the known underflow is a decide-checked witness. Input side and end to end (Proofs/CursorProps2): processCursor_in_token (a cursor at offset o of token k is attached to token k at offset o; the boundary case sticks to the previous token: cursor_at_token_start_sticks), cursor_in_unchanged_token(_true) (reported at start'(k)+o, which is the true position of the token's text in the output), the same for multi-line tokens with lines below 2^16 bytes, cursor_in_bounds_partial / cursor_in_bounds_lf (every reported cursor lies within the output, except for an ignored token's blank lines under crlf: counterexample theorem cursor_in_bounds_fails_ignored_crlf = known finding F11, reproduced on the binary), cursor_whitespace_in_gap. Character boundaries (Proofs/CursorBoundary): output_valid_utf8, cursor_in_gap_on_boundary (non-ignored tokens), cursor_in_token_on_boundary, cursor_on_boundary_unchanged_token (an input cursor on a character boundary inside an unchanged token is reported on a character boundary of the output), with counterexample theorems for changed comments (F16), the safety-net newline (F19) and wide blanks before an ignored token (F37, found on the model and reproduced on the binary). Model vs implementation "
+                "past-the-end, cursor state never read by format; the known underflow is a decide-checked witness. Input side and end to end (Proofs/CursorProps2): processCursor_in_token (a cursor at offset o of token k is attached to token k at offset o; the boundary case sticks to the previous token: cursor_at_token_start_sticks), cursor_in_unchanged_token(_true) (reported at start'(k)+o, which is the true position of the token's text in the output), the same for multi-line tokens with lines below 2^16 bytes, cursor_in_bounds_partial / cursor_in_bounds_lf (every reported cursor lies within the output, except for an ignored token's blank lines under crlf: counterexample theorem cursor_in_bounds_fails_ignored_crlf = known finding F11, reproduced on the binary), cursor_whitespace_in_gap. Character boundaries (Proofs/CursorBoundary): output_valid_utf8, cursor_in_gap_on_boundary (non-ignored tokens), cursor_in_token_on_boundary, cursor_on_boundary_unchanged_token (an input cursor on a character boundary inside an unchanged token is reported on a character boundary of the output), with counterexample theorems for changed comments (F16), the safety-net newline (F19) and wide blanks before an ignored token (F37, found on the model and reproduced on the binary). Proofs/Utf8Pipeline: every stage of the closed model keeps token texts well-formed UTF-8 (lex_pieces_valid, line_comment_rule_keeps_utf8, directive_rule_keeps_utf8, mls_rewrite_keeps_utf8, wrap_stage_keeps_pieces_valid), hence formatFull_pieces_valid and the cursor theorems instantiated at the final state of formatFull without the PiecesValid hypothesis (formatFull_cursor_on_boundary_unchanged_token, …). Model vs implementation "
                 "compared on all character boundaries of small inputs and random cursor lists on large ones.",
         "design_ref": "DESIGN.md section 5 (C15)",
         "note": "Known findings F3, F7, F11, F16, F18, F19, F37. Trusted: Lean kernel, translator, harness, model.",
